@@ -113,20 +113,29 @@ def is_safe_to_convert_to_multiline_string(literals: str) -> bool:
 
 def format_multiline_strings(source: str, offset: int = 4) -> str:
     """Fromats multiline string declarations."""
-    formatted_source = source
-    for match in re.finditer(r".*?=.*?('.*?'\s*){2,}", source):
-        line = match.group()
-        variable_indent_size = get_variable_indent_size(line)
-        orginal_str_match = re.search("'.*'", line)
-        if orginal_str_match:
-            orginal_str = orginal_str_match.group()
-            if not is_safe_to_convert_to_multiline_string(orginal_str):
-                continue
-            formatted = convert_to_multiline_string(
-                orginal_str, variable_indent_size=variable_indent_size, offset=offset
-            )
-            formatted_source = formatted_source.replace(orginal_str, formatted)
-    return formatted_source
+    return "\n".join(
+        format_multiline_string_line(line, offset=offset)
+        for line in source.split("\n")
+    )
+
+
+def format_multiline_string_line(line: str, offset: int = 4) -> str:
+    """Formats an assignment of adjacent string literals placed in a single line."""
+    # the literals have to be the whole right-hand side, not a part of a literal
+    match = re.match(r"^[^'\"]*=[^'\"]*?(('.*?'\s*){2,})\)*\s*$", line)
+    if not match:
+        return line
+
+    orginal_str = match.group(1).rstrip()
+    if not is_safe_to_convert_to_multiline_string(orginal_str):
+        return line
+
+    formatted = convert_to_multiline_string(
+        orginal_str,
+        variable_indent_size=get_variable_indent_size(line),
+        offset=offset,
+    )
+    return line.replace(orginal_str, formatted)
 
 
 def process_name(
